@@ -291,6 +291,9 @@ def check_resolver_call(A, R: Report, rid: str, rid9=None):
         for t in terms:
             nss = {x[1][0] for x in dag_nodes(t) if x[0] == 'cat' and len(x[1]) >= 2 and x[1][1] == ('lit', '::') and x[1][0][0] == 'attr' and x[1][0][2] == 'namespace'}
             if len(nss) != 1:
+                # the namespace may reach the concatenation through a local that is None for non-string references: any `.namespace` read of the declaring config
+                nss = {x for x in dag_nodes(t) if x[0] == 'attr' and x[2] == 'namespace'}
+            if len(nss) != 1:
                 verdicts.append((False, t))
                 continue
             ns = next(iter(nss))
@@ -304,19 +307,20 @@ def check_resolver_call(A, R: Report, rid: str, rid9=None):
 
             def qualified(r, ns=ns):
                 # <ns>::<name>, or <name> itself where it already starts with <ns>::
-                if r[0] == 'cat' and len(r[1]) == 3 and r[1][0] == ns and r[1][1] == ('lit', '::'):
+                if r[0] == 'cat' and len(r[1]) == 3 and r[1][0] in (ns, ('str', ns)) and r[1][1] == ('lit', '::'):
                     return True
                 if r[0] == 'cond':
                     test, neg = r[1], False
                     if test[0] == 'not':
                         test, neg = test[1], True
-                    if test[0] == 'method' and test[2] == 'startswith' and test[3] == (('cat', (ns, ('lit', '::'))),):
+                    if test[0] == 'method' and test[2] == 'startswith' and test[3] in ((('cat', (ns, ('lit', '::'))),), (('cat', (('str', ns), ('lit', '::'))),)):
                         yes, no = (r[3], r[2]) if neg else (r[2], r[3])
                         return (yes == test[1] or qualified(yes)) and qualified(no)
                     return qualified(r[2]) and qualified(r[3])
                 return False
 
-            verdicts.append((qualified(assume(t, decide)), t))
+            from ..terms import normalise as _norm
+            verdicts.append((qualified(_norm(assume(t, decide))), t))
         bad = [t for ok_, t in verdicts if not ok_]
         if bad and any(has_opaque(t) for t in bad):
             R.undecided(rid, 'Chain._process_dependencies: resolver call', 'the name handed to the resolver involves a construct the term engine does not interpret', where=where(fpd, c))
@@ -325,7 +329,7 @@ def check_resolver_call(A, R: Report, rid: str, rid9=None):
             # whether a name is relative to the declaring namespace is decided from its *text*: `ns::x` declared inside `ns` may mean
             # the task `ns::x` (absolute, e.g. produced by pattern expansion) or the task x of the inner namespace `ns::ns`
             textual = [t for t in terms if any(x[0] == 'method' and x[2] == 'startswith' and len(x[3]) == 1 and x[3][0][0] == 'cat' and ('lit', '::') in x[3][0][1] and
-                                               any(y[0] == 'attr' and y[2] == 'namespace' for y in x[3][0][1]) for x in dag_nodes(t))]
+                                               any(y[0] == 'attr' and y[2] == 'namespace' for y in dag_nodes(x[3][0])) for x in dag_nodes(t))]
             R.check(not textual, rid9, 'Chain._process_dependencies: relative or absolute name', key_of('prefix-heuristic', bool(textual)), 'decided by where the name came from',
                     'a declared input name that starts with `<own namespace>::` is taken as already qualified: inside a config mounted `as token`, the input `token::tokenize` '
                     '(task of the inner namespace `token`) is looked up as `token::tokenize` instead of `token::token::tokenize` and construction fails with "not found"',
@@ -422,6 +426,13 @@ def run(A, R: Report, thorough: bool):
     R.rule('R08.3', 'exclusions are collected before any registration; only abstract and excluded classes are skipped; single-~ patterns match the own namespace segment-wise with fullmatch', floor=3)
     fct = A.func('Chain._create_tasks')
     scope = [fct] + list(fct.nested.values())
+    # module-level private helpers the declarations are read through (a generator that yields the declared classes, ...)
+    for f_ in list(scope):
+        for n_ in A.typer.own_nodes(f_):
+            if isinstance(n_, ast.Call) and isinstance(n_.func, ast.Name) and n_.func.id.startswith('_'):
+                h_ = next((g for g in A.prog.functions.values() if g.name == n_.func.id and g.cls is None and g.parent is None and g.module is fct.module), None)
+                if h_ is not None and h_ not in scope:
+                    scope.append(h_)
     order_lists = [n for n in A.typer.own_nodes(fct) if isinstance(n, ast.For) and isinstance(n.iter, (ast.List, ast.Tuple)) and n.iter.elts and all(isinstance(e, ast.Tuple) for e in n.iter.elts)]
     cfg_loops = [n for n in A.typer.own_nodes(fct) if isinstance(n, ast.For) and '_configs' in src(n.iter)]
     # the exclusion set: a local bound to a set (empty and filled by .add, or built in one expression from the `excluded_tasks` field)
